@@ -198,7 +198,7 @@ PROPS = {
         ],
     },
     "C17": {
-        "statement": "Meta.C17_inv (MetaInv after every register history) + C17_tys_first_registration + C17_get_spec / C17_get_some_iff / C17_get_some_same_address (any cast, any implementor) / C17_bad_cast_panics_get / C17_check_at_every_use (nothing is checked at registration, every use checks) + C17_next_spec / C17_next_item_same_address / C17_next_conflict_panics / C17_bad_cast_panics_next + C17_iter_spec / C17_iter_spec_any_vtable / C17_iter_once_each (stable, non-nightly meta.rs)",
+        "statement": "Meta.C17_inv (MetaInv after every register history) + C17_tys_first_registration + C17_get_spec / C17_get_some_iff / C17_get_some_same_address (any cast, any implementor) / C17_bad_cast_panics_get / C17_check_at_every_use (nothing is checked at registration, every use checks) + C17_next_spec / C17_next_item_same_address / C17_next_conflict_panics / C17_bad_cast_panics_next + C17_iter_spec / C17_iter_spec_any_vtable / C17_iter_once_each + the provided Iterator methods defined from next: C17_nth_spec (nth(n) = the n-th registered-and-present type from the cursor) / C17_nth_conflict_panics / C17_collect_via_spec with C17_skip_spec, C17_take_spec, C17_step_by_spec / C17_last_spec / C17_count_spec / C17_size_hint_valid (stable, non-nightly meta.rs)",
         "engines": [{"engine": "meta", "args": {},
                      "quick": {"cases": 4000},
                      "thorough": {"cases": 50000, "small-scope": True, "long": True},
@@ -261,7 +261,7 @@ TEXT = {
     "C14": "Proof about every log the driver's panic-aware acceptor accepts: a panic is reported iff a system was unwound, nothing ordered after an unwound system starts, nothing starts twice, every opened window is closed; the acceptor accepts every declaratively legal execution. Tied by injecting a panic into every placed system in turn (run / fetch), payload, borrow probe, clean re-dispatch. PARTIAL: rayon's re-raise and unwinding are assumed; rayon may leave out unstarted siblings (modelled).",
     "C15": "Proof over all interleavings of caller and background-job steps of the async state machine: accessor quiescence, running() truthfulness, no overtaking, thread-local systems only inside wait on the caller, each dispatch once; accepted logs are runs. Tied by gated real runs. PARTIAL: mpsc and rayon spawn are modelled.",
     "C16": "Proof: every leaf once, seq order, par may overlap, reads/writes = concatenation over leaves, setup reaches leaves, Par::with's debug check fails iff a leaf-level conflict exists; trees that pass the checks are isolated. Tied by run-time assembled real Par/Seq trees (depth <= 5, fan-out <= 6), traces, debug-assertion panics.",
-    "C17": "Proof: the table invariant under any register history, get/get_mut specification, one next step and whole iteration (first-registration order, once each, exactly the registered present types, shared vs exclusive borrows), bad casts panic at every use whatever the implementor (registration checks nothing), a returned reference always has the resource's address. Tied by forty implementing types (zero-sized / sized / Drop / aligned / generic, each with the lawful CastFrom and wrong ones of six shapes), tables for a plain trait and for a trait with supertraits, all presence subsets, exhaustive small scopes.",
+    "C17": "Proof: the table invariant under any register history, get/get_mut specification, one next step and whole iteration (first-registration order, once each, exactly the registered present types, shared vs exclusive borrows), bad casts panic at every use whatever the implementor (registration checks nothing), a returned reference always has the resource's address. Tied by forty implementing types (zero-sized / sized / Drop / aligned / generic, each with the lawful CastFrom and wrong ones of six shapes), tables for a plain trait and for a trait with supertraits, all presence subsets, exhaustive small scopes; both iterators are also driven through the provided Iterator methods (nth, skip, step_by, take, last, count, fold, for_each, collect, size_hint, zip, by_ref then next) and must give what the next-sequence gives.",
     "C18": "Proof: add panics iff a dependency is unknown (first such) or a non-empty name is taken; every other registration succeeds; group size <= 4 < 5, running times <= 20, targets in bounds, for every registration sequence and every builder state reachable through accepted and rejected calls. Tied by a malformed stream at every position and deep funnels.",
     "C19": "Proof: relabelled resources, permuted / duplicated declared lists, renamed systems, renumbered ids and re-tagged systems give identical tables for every registration sequence. Tied by transformed twins, a second process, and case-by-case comparison of the builds with and without the parallel feature.",
     "C20": "Proof: the printed table is the executed table (lock-step), each registered system once, the text is the rendering of the name tree, the name choice is total (placeholder for unnamed systems, after repair D1). Tied by byte-for-byte comparison of the real Debug text with the model's and with the real executed layout.",
